@@ -2,11 +2,13 @@
 from vlib.core import core_check
 
 OPTS = [dict(), dict(max_m=2, max_t=4, p_nonexcl=0.15), dict(sched="rr", nested=False, rdep_rel=False),
-        dict(p_struct=0.7, p_body_in_struct=0.3)]
+        dict(p_struct=0.7, p_body_in_struct=0.3),
+        # call sites of one exclusive method in two different modules, under alternatives of equally placed structures
+        dict(p_two_mods=1.0, p_xcall=1.0, max_t=3, max_m=4, p_nonexcl=0.1, p_struct=0.3, _weight=2)]
 
 
 def run(rep):
-    core_check(rep, "C01", [dict(o) for o in OPTS], 64, 1600, nontrivial_key="impl_with_shared_exclusive_method")
+    core_check(rep, "C01", [dict(o) for o in OPTS], 80, 2000, nontrivial_key="impl_with_shared_exclusive_method")
     rep.coverage["rule"] = ("random designs from the grammar, built with the real API; every valuation of the control inputs "
                             "(or 128/512 random ones); clauses ExclusiveOnce + JointRunOnlyIfExcl on observed run/witness signals, "
                             "both schedulers; distinct_nontrivial = built designs in which an exclusive method has >=2 caller bodies")
